@@ -12,7 +12,7 @@ import (
 // must print byte-identical output in the same order.
 
 func (w *Worker) pickPkgs(r *simrt.Rand, index, n int) []string {
-	names := w.corpus.Names
+	names := w.index.Names
 	out := []string{names[index%len(names)]}
 	for len(out) < n {
 		out = append(out, names[r.Intn(len(names))])
@@ -26,7 +26,7 @@ func (w *Worker) genC02(rc *simapi.RunConfig) {
 	np := 1 + r.Intn(2)
 	pkgs := w.pickPkgs(r, rc.Index, np)
 	for _, p := range pkgs {
-		rc.Visits = append(rc.Visits, simapi.Visit{Pkg: p, Files: w.corpus.Pkgs[p].AllFiles()})
+		rc.Visits = append(rc.Visits, simapi.Visit{Pkg: p, Files: w.index.AllFiles(p)})
 	}
 	var wl *Workload
 	if rc.Index%3 == 0 {
